@@ -11,6 +11,9 @@ use crate::universe::*;
 fn equivalence(tier: Tier, st: &mut Stats) {
     let mut us = u_lex(tier);
     us.retain(|u| u.dict.user.is_some() && u.mapping.is_none());
+    let mut big = crate::universe::u_big(tier);
+    big.retain(|u| u.dict.user.is_some());
+    us.extend(big);
     let max_len = tier.pick(4, 5);
     // richer user menus on top of the universe's own
     let extra_users: Vec<Vec<Row>> = vec![
@@ -43,7 +46,10 @@ fn equivalence(tier: Tier, st: &mut Stats) {
         twin.dict.user = None;
         twin.dict.sys.extend(user_rows.iter().cloned());
         let nsys = u.dict.sys.len();
-        let sentences = all_strings(&u.alphabet, max_len);
+        let sentences = all_strings(&u.alphabet, if u.name.starts_with("big/") { 3 } else { max_len });
+        if u.dict.user.as_ref().map_or(0, |r| crate::refmodel::RefDict::render_rows(r).len()) > 8192 {
+            st.count("user_lexicons_longer_than_8_KiB");
+        }
         for &opts in &u.opts {
             let (d, rd) = u.build().unwrap_or_else(|e| {
                 println!("MACHINERY: {} does not build: {e}", u.name);
@@ -326,6 +332,7 @@ pub fn run(tier: Tier) -> i32 {
             "user_rows_with_ids_in_range",
             "user_rows_with_ids_out_of_range",
             "malformed_user_csvs",
+            "user_lexicons_longer_than_8_KiB",
         ],
     )
 }
